@@ -7,7 +7,7 @@ a fixed table of std functions has term semantics; everything else is an opaque 
 memory.  The analysis can therefore only *fail to prove*, never prove something false, relative to
 the lemma library in prover.py and the modelling assumptions listed there.
 """
-import itertools
+import itertools, re
 from . import cfg as cfgm
 from .terms import *
 
@@ -102,6 +102,10 @@ class Interp:
         self.res = None
         self._cfgs = {}
         self._stack = []
+        self.tsub = {}            # frame -> {generic parameter name of the inlined body: caller's type / const argument}
+        self._tsub_pat = {}
+        self.clos_sub = {}        # closure body id -> substitution of the frame that created the closure value
+        self._fid = None          # frame whose statement is being interpreted (for size_of / align_of)
         self.adt_layout = {a['path']: a['layout'] for a in db.adts if a.get('layout')}
         from . import stdmodel
         self.std = stdmodel.TABLE
@@ -375,12 +379,21 @@ class Interp:
     # ------------------------------------------------------------------ operands / rvalues
     def const(self, st, fid, o):
         if o.get('param'):
+            m = self.tsub.get(fid)
+            if m and o['param'] in m:
+                v = m[o['param']]
+                if re.fullmatch(r'\d+', v):
+                    return C(int(v))
+                if re.fullmatch(r'[A-Za-z_]\w*', v):
+                    return sym(v)
             return sym(o['param'])
         if o.get('promoted') is not None and o.get('val') is None:
             body_id = fid[-1][0]
             pid = '%s::promoted[%d]' % (self.parent_fn_id(body_id), o['promoted'])
             pb = self.bodies.get(pid)
             if pb is not None:
+                if self.tsub.get(fid):
+                    self.tsub[fid + ((pid, -1),)] = self.tsub[fid]
                 out, ret = self.run_body(pb, fid + ((pid, -1),), st, [], keep_frame=True)
                 if out is not None:
                     st.env.update(out.env)
@@ -487,6 +500,8 @@ class Interp:
                     short = 'ControlFlow'
                 return agg(short, vn, tuple((names[i] if i < len(names) else str(i), f) for i, f in enumerate(fs)))
             if a == 'closure':
+                if self.tsub.get(fid):
+                    self.clos_sub[rv['name']] = self.tsub[fid]
                 return agg('closure:' + rv['name'], '', tuple(('upvar%d' % i, f) for i, f in enumerate(fs)))
             if a == 'tuple':
                 if not fs:
@@ -513,7 +528,19 @@ class Interp:
                 t = t[len(pre):]
         return self.size_of(t)
 
+    def subst_ty(self, t, fid=None):
+        """type string of the frame being interpreted, in the entry function's generic parameters"""
+        m = self.tsub.get(self._fid if fid is None else fid)
+        if not m or not t:
+            return t
+        pat = self._tsub_pat.get(id(m))
+        if pat is None:
+            pat = re.compile(r'(?<![\w:\'])(' + '|'.join(re.escape(k) for k in sorted(m, key=len, reverse=True)) + r')(?![\w:])')
+            self._tsub_pat[id(m)] = pat
+        return pat.sub(lambda mo: m[mo.group(1)], t)
+
     def size_of(self, t):
+        t = self.subst_ty(t)
         prim = {'u8': 1, 'i8': 1, 'bool': 1, 'u16': 2, 'i16': 2, 'u32': 4, 'i32': 4, 'char': 4, 'u64': 8, 'i64': 8, 'usize': 8, 'isize': 8, 'u128': 16, 'i128': 16, '()': 0,
                 'std::mem::MaybeUninit<u8>': 1, 'core::mem::MaybeUninit<u8>': 1}
         if t in prim:
@@ -526,6 +553,7 @@ class Interp:
         return sym('sizeof(%s)' % t)
 
     def align_of(self, t):
+        t = self.subst_ty(t)
         prim = {'u8': 1, 'i8': 1, 'bool': 1, 'u16': 2, 'i16': 2, 'u32': 4, 'i32': 4, 'char': 4, 'u64': 8, 'i64': 8, 'usize': 8, 'isize': 8, 'u128': 16, 'i128': 16, '()': 1}
         if t in prim:
             return C(prim[t])
@@ -784,6 +812,14 @@ class Interp:
         return self.res
 
     def run_body(self, body, fid, st, args, entry=False, keep_frame=False):
+        prev = self._fid
+        try:
+            return self._run_body(body, fid, st, args, entry, keep_frame)
+        finally:
+            self._fid = prev
+
+    def _run_body(self, body, fid, st, args, entry=False, keep_frame=False):
+        self._fid = fid
         g = self.cfg(body)
         loops = g.loops()
         back = set(g.back_edges())
@@ -805,6 +841,7 @@ class Interp:
                 cur = self.join(fid, bi, ins)
             if bi in loops:
                 self.widen(cur, fid, body, loops[bi], bi)
+            self._fid = fid
             blk = blocks[bi]
             dead = False
             for si, s in enumerate(blk['stmts']):
@@ -1066,7 +1103,13 @@ class Interp:
         local = self.local_body(target)
         if local is not None and target not in self.opaque_calls and target not in self.no_inline and self.inline:
             if len(fid) < MAX_DEPTH and not any(f[0] == local['id'] for f in fid):
-                out, ret = self.run_body(local, fid + ((local['id'], bi),), st, args)
+                nf = fid + ((local['id'], bi),)
+                sub = self.callee_subst(fid, c, target, local)
+                if sub:
+                    self.tsub[nf] = sub
+                else:
+                    self.tsub.pop(nf, None)
+                out, ret = self.run_body(local, nf, st, args)
                 if out is None:
                     return ('never',)
                 self.adopt(st, out)
@@ -1085,6 +1128,23 @@ class Interp:
         self.havoc_args(st, args)
         self.havoc(st, 'call ' + target)
         return ('call', target, tuple(args), next(self.counter))
+
+    def callee_subst(self, fid, c, target, local):
+        """generic parameters of the inlined body -> the caller's arguments (already in entry-frame terms)"""
+        names = local['meta'].get('generics_ord')
+        res = c.get('resolved') or {}
+        gargs = res.get('gargs') if res.get('path') == target and res.get('gargs') is not None else c.get('gargs')
+        if not names or gargs is None or len(names) != len(gargs):
+            return None
+        sub = {}
+        for n, a in zip(names, gargs):
+            kind, _, name = n.partition(':')
+            if kind not in ('ty', 'const') or ' ' in name:
+                continue
+            a2 = self.subst_ty(a, fid)
+            if a2 != name:
+                sub[name] = a2
+        return sub or None
 
     def havoc_args(self, st, args):
         for a in args:
@@ -1141,6 +1201,10 @@ class Interp:
                 else:
                     envp = fv
                 cev = self.event('call', st, fid, bi, body.get('span'), callee=cid, args=[envp] + cargs, extra={'closure': True, 'callee': {}})
+                if self.clos_sub.get(cid):
+                    self.tsub[fid + ((cid, bi),)] = self.clos_sub[cid]
+                else:
+                    self.tsub.pop(fid + ((cid, bi),), None)
                 out, ret = self.run_body(body, fid + ((cid, bi),), st, [envp] + cargs)
                 cev.ret = ret
                 if out is None:
